@@ -462,9 +462,15 @@ class RenderContext:
             # tag namespaces need to be copied.
             ctx.tag_namespace["extends"] = self.tag_namespace["extends"]
         else:
+            # An isolated context sees the given namespace and global data only, not
+            # the arguments an enclosing partial or macro was rendered with.
+            root = self
+            while root.parent_context is not None:
+                root = root.parent_context
+
             ctx = self.__class__(
                 template or self.template,
-                globals=ReadOnlyChainMap(namespace, self.globals),
+                globals=ReadOnlyChainMap(namespace, root.globals),
                 disabled_tags=disabled_tags,
                 copy_depth=self._copy_depth + 1,
                 parent_context=self,
